@@ -222,27 +222,71 @@ theorem msgFieldsLex_wf {ind : List Byte} (hi : Blanks ind) (hne : ind ≠ []) :
     have hg0 := hg g (List.mem_cons_self)
     have ih := msgFieldsLex_wf hi hne gs (fun x hx => hg x (List.mem_cons_of_mem _ hx)) hr
     simp only [msgFieldsLex, msgFieldLex]
-    refine docLex_wf hi g.doc (fun c hc => (hg0.1 c hc).1) ?_
-    refine depLex_wf hi g.dep hg0.2.1 ?_
-    simp only [WFL, tok_num hg0.2.2.1, tok_arrow, hi, blanks_sp, reduceCtorEq, false_imp_iff, implies_true, true_and,
+    refine docLex_wf hi g.doc (fun c hc => (hg0.2.1 c hc).1) ?_
+    refine depLex_wf hi g.dep hg0.2.2.1 ?_
+    simp only [WFL, tok_num hg0.2.2.2.1, tok_arrow, hi, blanks_sp, reduceCtorEq, false_imp_iff, implies_true, true_and,
       es_arrow]
-    refine typeLex_wf g.ty hg0.2.2.2.2.1 [32] blanks_sp _ (fun q => ?_) _ (fun h => by cases h)
-    simp only [WFL, tok_id hg0.2.2.2.2.2, tok_semi, tok_nl, blanks_sp, blanks_nil, ss_semi, ss_nl, es_semi, es_nl,
-      implies_true, true_and, ih, and_true, reduceCtorEq, false_imp_iff]
+    refine typeLex_wf g.ty hg0.2.2.2.2.2.1 [32] blanks_sp _ (fun q => ?_) _ (fun h => by cases h)
+    simp only [WFL, tok_id hg0.2.2.2.2.2.2, tok_semi, blanks_sp, blanks_nil, ss_semi, es_semi,
+      implies_true, true_and, trailLex_wf g.trail hg0.1 ih, and_true, reduceCtorEq, false_imp_iff]
 
-theorem enumOptsLex_wf {bits : Nat} {uns : Bool} : ∀ (os : List CEnumOpt), (∀ o ∈ os, CEnumOptOk bits uns o) →
-    ∀ {r : List Lexeme}, WFL false r → WFL false (enumOptsLex os r)
-  | [], _, r, hr => by
+theorem sbk_bar : singleByteKind 124 = some .vbar := by decide
+theorem sbk_amp : singleByteKind 38 = some .amp := by decide
+
+theorem etok_ok {e : ETok} (h : ETokOk e) : TokOk e.tok := by
+  cases e with
+  | lit s => exact tok_num h
+  | ref n => exact tok_id h
+  | bar => exact tokOk_single (by decide) sbk_bar
+  | amp => exact tokOk_single (by decide) sbk_amp
+  | shl => exact TokOk.shl
+  | shr => exact TokOk.shr
+  | lp => exact tok_lp
+  | rp => exact tok_rp
+
+/-- the tokens of a member value, spaced as the formatter spaces them (`p`: the previous token ends in a
+    letter or digit; a `(` does not) -/
+theorem spLex_val_wf : ∀ (val : List ETok), (∀ e ∈ val, ETokOk e) → ∀ (prev : TK) (p : Bool) {r : List Lexeme},
+    (∀ q, WFL q r) → (prev = .openParen → p = false) → WFL p (spLex prev (val.map ETok.tok) r)
+  | [], _, prev, p, r, hr, _ => hr p
+  | e :: val, he, prev, p, r, hr, hp => by
+    have he0 := he e (List.mem_cons_self)
+    have ih := spLex_val_wf val (fun x hx => he x (List.mem_cons_of_mem _ hx)) e.tok.kind (endsSticky e.tok.concrete)
+      hr (by cases e <;> simp [ETok.tok])
+    simp only [List.map_cons, spLex, WFL]
+    refine ⟨etok_ok he0, ?_, ?_, ih⟩
+    · split
+      · exact blanks_sp
+      · exact blanks_nil
+    · intro hsep hpt
+      split at hsep
+      · cases hsep
+      · rename_i hcond
+        simp only [Bool.and_eq_true, bne_iff_ne, ne_eq, not_and, Decidable.not_not] at hcond
+        by_cases hprev : prev = .openParen
+        · rw [hp hprev] at hpt; cases hpt
+        · have hk := hcond hprev
+          cases e <;> simp [ETok.tok] at hk ⊢
+
+theorem enumOptsLex_wf {fl : Bool} {bits : Nat} {uns : Bool} : ∀ (os : List CEnumOpt) (acc : List EnumOption),
+    CEnumOptsOk fl bits uns acc os → ∀ {r : List Lexeme}, WFL false r → WFL false (enumOptsLex os r)
+  | [], _, _, r, hr => by
     simp only [enumOptsLex, WFL, tok_close, tok_nl, blanks_nil, ss_close, ss_nl, es_close, es_nl,
       implies_true, hr, and_self]
-  | o :: os, ho, r, hr => by
-    have ho0 := ho o (List.mem_cons_self)
-    have ih := enumOptsLex_wf os (fun x hx => ho x (List.mem_cons_of_mem _ hx)) hr
+  | o :: os, acc, ho, r, hr => by
+    have ho0 := ho.1
+    have ih := enumOptsLex_wf os _ ho.2 hr
     simp only [enumOptsLex, enumOptLex]
     refine docLex_wf blanks_tab o.doc ho0.1 ?_
     refine depLex_wf blanks_tab o.dep ho0.2.1 ?_
-    simp only [WFL, tok_id ho0.2.2.1, tok_eq, tok_num ho0.2.2.2.1, tok_semi, tok_nl, blanks_tab, blanks_sp, blanks_nil,
-      ss_semi, ss_nl, es_semi, es_nl, reduceCtorEq, false_imp_iff, implies_true, true_and, ih, and_true]
+    have htail : ∀ q, WFL q (⟨[], tSemi⟩ :: ⟨[], tNl⟩ :: enumOptsLex os r) := by
+      intro q
+      simp only [WFL, tok_semi, tok_nl, blanks_nil, ss_semi, ss_nl, es_semi, es_nl, implies_true, true_and, ih, and_true]
+    have hval := spLex_val_wf o.val ho0.2.2.2.1 .equals (endsSticky tEq.concrete) htail (by intro h; cases h)
+    have hsp : (TK.ident != TK.openParen && TK.equals != TK.closeParen) = true := by decide
+    simp only [spLex, WFL, tok_id ho0.2.2.1, tok_eq, blanks_tab, blanks_sp, reduceCtorEq, false_imp_iff, implies_true,
+      true_and, hsp, if_true]
+    exact hval
 
 theorem messageLex_wf {s ind : List Byte} (hs : Blanks s) (hi : Blanks ind) (hne : ind ≠ []) {name : Str}
     (hn : IdentOk name = true) {gs : List CMsgField} (hg : ∀ g ∈ gs, CMsgFieldOk g) {r : List Lexeme}
@@ -292,12 +336,24 @@ theorem constValTok_ok {v : CConstV} (h : CConstVOk v) : TokOk (constValTok v) :
   | int ty lit => exact tok_num h.2.1
   | bool b => cases b <;> simp [constValTok]
   | str body => exact tok_str h
+  | float ty neg ip fp => exact TokOk.float neg ip fp h.2.2.2.1 h.2.2.2.2.1 h.2.2.2.2.2.1 h.2.2.2.2.2.2
+  | inf ty => exact tokOk_kw (by decide) (by decide)
+  | negInf ty => exact TokOk.negInf
+  | nan ty => exact tokOk_kw (by decide) (by decide)
+  | guid body => exact tok_str h.1
 
 theorem constTy_ok {v : CConstV} (h : CConstVOk v) : TokOk (tId (constTy v)) := by
   cases v with
   | int ty lit => exact tok_id h.1
   | bool b => exact tok_bool
   | str body => exact tok_string
+  | float ty neg ip fp => exact tok_id h.1
+  | inf ty => exact tok_id h.1
+  | negInf ty => exact tok_id h.1
+  | nan ty => exact tok_id h.1
+  | guid body =>
+    have := TokOk.word kwGuid (by decide)
+    rwa [show keywordKind kwGuid = none by decide] at this
 
 theorem defLex_wf (d : CDef) (hd : CDefOk d) {r : List Lexeme} (hr : WFL false r) : WFL false (defLex d r) := by
   cases d with
@@ -328,7 +384,7 @@ theorem defLex_wf (d : CDef) (hd : CDefOk d) {r : List Lexeme} (hr : WFL false r
     obtain ⟨h1, h2, h3⟩ := hd
     simp only [defLex]
     refine flagsLex_wf fl ?_
-    have hbody := enumOptsLex_wf opts h3 hr
+    have hbody := enumOptsLex_wf opts [] h3 hr
     cases base with
     | none =>
       simp only [baseLex, WFL, tok_kEnum, tok_id h1, tok_open, tok_nl, ss_nl, es_nl, blanks_nil, blanks_sp, reduceCtorEq,
@@ -358,14 +414,14 @@ theorem fileLex_wf : ∀ (f : CFile), (∀ d ∈ f, CTopOk d) → ∀ nl, WFL fa
       exact hd
 
 /-- The tokenizer delivers every admissible layout of a well-formed schema as exactly its tokens. -/
-theorem lex_schema (f : CFile) (hf : CFileOk f) (w : Nat → List Byte) (hw : LayoutOk w (fileLex false f)) :
+theorem lex_schema (f : CFile) (hf : CFileOkP f) (w : Nat → List Byte) (hw : LayoutOk w (fileLex false f)) :
     LexI ((fileLex false f).map (·.tok)) (laidOutF w f) :=
   lex_render (fileLex_wf f hf.1 false).lexsOk hw
 
 theorem canonTextF_eq (f : CFile) : canonTextF f = laidOutF (canonW (fileLex false f)) f :=
   (render_canon _).symm
 
-theorem canonW_layoutOk (f : CFile) (hf : CFileOk f) : LayoutOk (canonW (fileLex false f)) (fileLex false f) :=
+theorem canonW_layoutOk (f : CFile) (hf : CFileOkP f) : LayoutOk (canonW (fileLex false f)) (fileLex false f) :=
   canonW_ok (fileLex_wf f hf.1 false).lexsOk
 
 end Canon
